@@ -111,6 +111,8 @@ void harness (void)
   if (!ok) { VF_WITNESS_OPT ("handler ran out of memory"); }
   /* I is inductive */
   if (auth->state == &server_state_waiting_for_begin) VF_ASSERT (authorized_set, "waiting for BEGIN only with an authorized identity");
+  if (auth->state == &server_state_waiting_for_data) VF_ASSERT (auth->mech == &all_mechanisms[0] && !authorized_set, "waiting for DATA only with the EXTERNAL mechanism selected (the next DATA line calls through auth->mech) and nothing authorized yet");
+  if (auth->state == &server_state_waiting_for_begin) VF_ASSERT (auth->mech == &all_mechanisms[0] || auth->mech == &all_mechanisms[2], "waiting for BEGIN with the mechanism that succeeded still selected");
   if (auth->state == &server_state_waiting_for_auth && ok) VF_ASSERT (!authorized_set && LEN (&auth->identity) == 0, "back in waiting-for-AUTH no identity or authorization of an earlier attempt survives");
   /* authenticated only via BEGIN after OK */
   if (auth->state == &common_state_authenticated)
